@@ -151,6 +151,9 @@ def teardown_probe(env):
                 elif o.ret.get("body") != "ok" or o.ret.get("in_destructor") != "ok":
                     env.violation("C18:differs_during_thread_teardown", "round trip in the thread body: %s; the same round trip from a thread-local destructor during thread exit: %s (%s build)" % (o.ret.get("body"), o.ret.get("in_destructor"), b),
                                   case_text=ss.case_text(o.id), workload="placement")
+                elif o.ret.get("in_unwind", "ok") != "ok":
+                    env.violation("C18:differs_while_unwinding", "the same round trip made from a destructor that runs while a panic unwinds the thread: %s (thread body: ok; %s build)" % (o.ret.get("in_unwind"), b),
+                                  case_text=ss.case_text(o.id), workload="placement")
                 else:
                     env.seen(("teardown", ss.ids[0], b))
                     env.count("round_trips_from_thread_local_destructor", 1)
@@ -282,6 +285,35 @@ def new_api_probe(env):
         env.extra_cov["public_surface"]["setter_shaped_additions_driven"] = sorted(cands)
         return
     env.note("new setter-shaped functions %s could not be called from a generated program (no public path found)" % sorted(cands))
+
+
+def key_mill(env):
+    """Process lifetime as a hidden input: 2^32 (minus a window) private-key objects are constructed and dropped on one
+    thread, then 80 remembered keys are parsed afresh and their public keys recomputed - a 32-bit object id or
+    generation counter that wraps makes one of them inherit another key's cached result.  X25519 (10 ns per object)."""
+    g = gen.G(env.rnd)
+    cw = cl.CaseW()
+    s = cw.session(0x0020, 1, 1, sid="mill")
+    s.call("key_mill", ikm=g.rbytes(16), n=(1 << 32) - 40, window=80)
+    s.call("key_mill", ikm=g.rbytes(16), n=1 << 16, window=80)
+    for b in ("checked", "checked-std"):
+        res = env.drive("mill", cw.text(), build=b, timeout=3600)
+        if res.timed_out:
+            env.note("key mill: watchdog (inconclusive for this sub-run only)")
+            continue
+        for ss in res.sessions:
+            for o in ss.ops:
+                if o.op != "key_mill":
+                    continue
+                env.count("evaluations", 1)
+                if o.ret is None or "ok" not in o.ret:
+                    env.violation("C18:key_mill:%s" % o.outcome(), "constructing %s private keys: %s" % (o.args["n"], o.outcome()), case_text=ss.case_text(o.id), workload="placement")
+                elif o.ret.get("mism") != "0":
+                    env.violation("C18:depends_on_objects_created_before", "after %s private-key objects had been constructed in the process, %s of 80 freshly parsed keys gave a public key different from the one the same bytes gave before (%s build)" % (
+                        o.ret.get("made"), o.ret.get("mism"), b), case_text=ss.case_text(o.id), workload="placement")
+                else:
+                    env.seen(("key_mill", b, o.args["n"]))
+        env.extra_cov["private_key_objects_constructed_in_one_process:%s" % b] = sum(int(o.ret.get("made", 0)) for ss in res.sessions for o in ss.ops if o.op == "key_mill" and o.ret)
 
 
 def _short(d):
@@ -699,6 +731,7 @@ def run(env):
         traces["tsan+" + sc] = dict(zip(("threads_used", "session_switches"), sched_stats(res.sched_path)[:2]))
     env.extra_cov["tsan_reports"] = tsan_total
     if not env.quick():
+        key_mill(env)
         miri_seeds(env)
 
 
